@@ -13,6 +13,7 @@ pub mod err;
 pub mod jsondoc;
 pub mod tok;
 pub mod intro;
+pub mod devauth;
 
 pub fn dispatch(op: &str, cfg: &RunCfg, d: &mut Driver) -> Option<OpResult> {
     Some(match op {
@@ -30,6 +31,7 @@ pub fn dispatch(op: &str, cfg: &RunCfg, d: &mut Driver) -> Option<OpResult> {
         "tok" => run_op::<tok::TokCase>(cfg, d),
         "err" => run_op::<err::ErrCase>(cfg, d),
         "intro" => run_op::<intro::IntroCase>(cfg, d),
+        "devauth" => run_op::<devauth::DevCase>(cfg, d),
         _ => return None,
     })
 }
